@@ -62,6 +62,10 @@ RULE = ('cases: (sec_plain/sec_nobits/sec_comp) sizes {0,1,63,64,65,127,128,129,
         'offsets ascending/descending/shuffled with data() in between; Segment.data before/after section_in_segment and '
         'through partly consumed iter_segments; (addr_hist) histories of start/next/close/drop/list/noise on one ELFFile '
         'over address_offsets, iter_segments() and iter_segments(PT_LOAD) generators, ranges biased to LATER PT_LOADs. '
+        'Header fields that do not locate an extent are drawn: p_flags/p_vaddr/p_paddr/p_align and p_memsz (0, below, equal, '
+        'above p_filesz, 2^n-1) of every seg_data/interp case (model = the Segment object built from the header in the '
+        'image), sh_link/sh_info/sh_entsize of every section case. One string table per run holds strings of 65535, '
+        '65536, 65537 and 70000 bytes (listed lookups: starts, interiors, chunk-boundary distances from the terminator). '
         'distinct = hash(kind, abstract); '
         'non-trivial = size>0 data, table with a string >= 63 bytes, any addr/sis pair')
 
